@@ -11,6 +11,7 @@
        recorded step-boundary state, continue to the reference end state, and the trajectory must not change
    (c) hunt for the refuted clause (synchronize outside the mutex -> torn snapshot)            [known finding when it hits]
    (e) save/load of simulation B while simulation A's server thread handles requests (descriptor double close) [known finding when it hits]
+   (h) keyboard requests (pause / single step / 50 steps / resume) + pulls vs run without a server, WHFast/MERCURIUS/SABA safe_mode=0, IAS15
    (f) a heartbeat that also writes in the prologue call; (g) sim.steps(n) next to a serving simulation   [known findings]
    (d) -DAVX512 build: two WHFast512 simulations alternated in one thread vs separate (fixed by /repo 85499fd: regression guard)
        and stepped concurrently from two threads vs separate                                   [known finding]
@@ -26,8 +27,21 @@ TOOLCHAIN_SYMS = re.compile(r"^(_DYNAMIC|_GLOBAL_OFFSET_TABLE_|__TMC_END__|__do_
 INTEGRATORS = ["leapfrog", "whfast", "saba", "eos", "janus", "ias15", "bs", "mercurius", "trace", "sei"]
 
 
+def ensure_lib(libdir):
+    """the build cache is shared: a concurrent check of another tree state may purge this library directory.  Rebuild when it is gone."""
+    so = os.path.join(libdir, "librebound" + vlib.SUFFIX)
+    if os.path.exists(so) and os.path.exists(os.path.join(libdir, "rebound")):
+        return libdir
+    variant = "avx512" if os.path.basename(libdir).startswith("lib-avx512-") else "default"
+    try:
+        return vlib.build_lib(variant)
+    except Exception:
+        return libdir
+
+
 def drive_once(libdir, mode, params, timeout):
     """-> (result | None, diagnostic, kind) ; kind in ok / timeout / signal / error"""
+    libdir = ensure_lib(libdir)
     try:
         r = subprocess.run([vlib.PY, DRIVER, mode], env=vlib.pyenv(libdir), input=json.dumps(params), capture_output=True,
                            text=True, timeout=timeout)
@@ -62,15 +76,20 @@ def drive(libdir, mode, params, timeout, attempts=3):
 
 
 def writable_symbols(libdir):
-    so = os.path.join(libdir, "librebound" + vlib.SUFFIX)
-    r = subprocess.run(["nm", so], capture_output=True, text=True)
+    r = None
+    for _ in range(3):
+        so = os.path.join(ensure_lib(libdir), "librebound" + vlib.SUFFIX)
+        r = subprocess.run(["nm", so], capture_output=True, text=True)
+        if r.returncode == 0 and r.stdout.strip():
+            break
+        time.sleep(1.0)
     out = set()
     for line in r.stdout.splitlines():
         parts = line.split()
         if len(parts) == 3 and parts[1] in "bBdDcCsSgG":
             if not TOOLCHAIN_SYMS.match(parts[2]):
                 out.add(re.sub(r"\.\d+$", "", parts[2]))       # function-local statics are emitted as name.N
-    return r.returncode == 0, out
+    return r.returncode == 0 and bool(r.stdout.strip()), out
 
 
 def check_statics_vs_binary(ctx, cfg, libdir, gen):
@@ -179,6 +198,13 @@ def run(ctx):
     if ps["spec"]["integrator"] == "ias15":
         ps["sleep_ms"] = 0.3
     jobs.append(("steps-api", libdir, "steps", ps, 240))
+    # keyboard commands (pause, single step, 50 steps, resume) + pulls must not change any bit of the trajectory
+    for integ, extra, us, tm in (("whfast", {"safe_mode": 0, "corrector": ctx.rng.choice([0, 11])}, 200, 30.0), ("mercurius", {"safe_mode": 0}, 300, 25.0),
+                                 ("saba", {"safe_mode": 0}, 200, 30.0), ("ias15", {}, 4000, 40.0)):
+        pk = {"seed": ctx.rng.randint(1, 10 ** 6), "spec": dict({"integrator": integ, "n": ctx.rng.randint(2, 4), "seed": ctx.rng.randint(1, 10 ** 6),
+              "dt": 0.01}, **extra), "tmax": tm, "usleep_us": us, "pause_at": round(ctx.rng.uniform(0.15, 0.5), 3),
+              "pulls_before": ctx.rng.randint(0, 3), "pulls_after": ctx.rng.randint(0, 3), "page_down": True}
+        jobs.append(("keyboard:" + integ, libdir, "keyboard", pk, 240))
     jobs.append(("fdclose", libdir, "fdclose", {"seed": ctx.rng.randint(1, 10 ** 6), "N": 3000, "clients": 3, "seconds": ctx.scale(4, 12)}, 200))
     if libavx:
         pw = {"seed": ctx.rng.randint(1, 10 ** 6), "steps": ctx.rng.randint(10, 40),
@@ -187,7 +213,16 @@ def run(ctx):
         pw2 = dict(pw, a=[1.0, 1], b=[1.0, 0], seed=pw["seed"] + 1, thread_steps=0)
         jobs.append(("w512:gr", libavx, "w512", pw2, 120))
     with ThreadPoolExecutor(max_workers=int(os.environ.get("VERIF_C19_PAR", "4"))) as ex:
-        results = list(ex.map(lambda j: (j, drive(j[1], j[2], j[3], j[4])), jobs))
+        def run_job(j):
+            res, diag = drive(j[1], j[2], j[3], j[4])
+            if j[2] == "keyboard" and res is not None and not res.get("conclusive"):
+                # the pause did not take effect in time (machine load): once more with a slower integration loop
+                res2, diag2 = drive(j[1], j[2], dict(j[3], usleep_us=j[3]["usleep_us"] * 4), j[4])
+                if res2 is not None:
+                    res2["_first_attempt_inconclusive"] = True
+                    res, diag = res2, diag2
+            return (j, (res, diag))
+        results = list(ex.map(run_job, jobs))
 
     served_total = 0
     seq_by_id = {}
@@ -225,6 +260,22 @@ def run(ctx):
                 m = res["mismatch"][0]
                 ctx.violation("concurrent:" + m["spec"]["integrator"], dict(replay, first_mismatch=m), True,
                               "simulation run concurrently with others ends in different bits than when run alone")
+        elif mode == "keyboard":
+            ctx.evaluations += 3
+            ctx.case(key=(name, res["conclusive"]), sample={"scenario": "keyboard", "integrator": res["integrator"], "single_steps": res["single_steps"],
+                                                           "multi_steps": res["multi_steps"], "pulls": res["pulls_running"]} if len(ctx.samples) < 6 else None)
+            ctx.extra.setdefault("keyboard_runs", []).append({k: res.get(k) for k in ("integrator", "conclusive", "single_steps", "multi_steps", "pulls_running",
+                                                                                     "final_differing_doubles", "snapshot_differing_doubles", "client_error")})
+            bad = []
+            if res["final_differing_doubles"] or not res["final_t_equal"] or not res["steps_equal"]:
+                bad.append("final state after pause/step/resume + pulls differs from the run without a server in %d doubles" % res["final_differing_doubles"])
+            if res["snapshot_differing_doubles"]:
+                bad.append("snapshot pulled while paused, continued to tmax, differs from the reference in %d doubles" % res["snapshot_differing_doubles"])
+            ctx.obligation("validation(real threads): %s — keyboard requests (pause, %d single steps, %d-step burst, resume) and %d pulls leave every bit of the "
+                           "trajectory unchanged%s" % (name, res["single_steps"], res["multi_steps"], res["pulls_running"],
+                                                       "" if res["conclusive"] else " [INCONCLUSIVE: pause did not take effect]"), not bad, "; ".join(bad))
+            if bad:
+                ctx.violation("server:request-alters-trajectory:" + res["integrator"], dict(replay, result=res), True, "; ".join(bad))
         elif mode == "steps":
             ctx.evaluations += res["served"]
             ctx.case(key=("steps-api", params["spec"]["integrator"], params["single_call"]))
